@@ -419,8 +419,12 @@ def determinism(chk, prog):
                     if isinstance(c, ast.Call):
                         t = ast.unparse(c.func)
                         if t.startswith(RNG_PREFIXES):
-                            if f.qname in RNG_ALLOWED:
-                                chk.record("DETERMINISM.allowed", "%s::%s" % (entry.ref, t), RNG_ALLOWED[f.qname])
+                            allowed = RNG_ALLOWED.get(f.qname)
+                            if allowed is None and f.cls is not None and f.cls.name == "OLEQ" and t.startswith("np.random.random"):
+                                # the documented random start vector, wherever inside class OLEQ the draw is written (global NumPy RNG, one draw of 4)
+                                allowed = RNG_ALLOWED["OLEQ.estimate"]
+                            if allowed is not None:
+                                chk.record("DETERMINISM.allowed", "%s::%s" % (entry.ref, t), allowed)
                                 continue
                             chk.finding("DETERMINISM", f.module.rel, f.qname, stmt_text(c),
                                         "RNG/clock call reachable from %s (path %s)" % (entry.qname, " -> ".join(path)), line=c.lineno)
